@@ -124,5 +124,31 @@ def main(argv):
         ctx.count("fresh-interpreter")
         if out != here:
             ctx.violation("value differs between processes", {"PYTHONHASHSEED": hs, "here": here, "there": out})
+    # environment independence: a host on which some optional third-party module happens to be importable must compute the same values.  A finder placed
+    # *last* on sys.meta_path answers every import that would otherwise fail with a stand-in whose functions return -1; the unchanged library never asks for
+    # a module it does not ship with or require, so there the finder is never consulted by the hash
+    code2 = ("import sys, types, importlib.abc, importlib.machinery\n"
+             "asked = []\n"
+             "class Stub(types.ModuleType):\n"
+             "    def __getattr__(self, n):\n"
+             "        if n.startswith('__'): raise AttributeError(n)\n"
+             "        return lambda *a, **k: -1\n"
+             "class F(importlib.abc.MetaPathFinder, importlib.abc.Loader):\n"
+             "    def find_spec(self, name, path, target=None):\n"
+             "        return None if name.split('.')[0] == 'pymemcache' else importlib.machinery.ModuleSpec(name, self)\n"
+             "    def create_module(self, spec): return Stub(spec.name)\n"
+             "    def exec_module(self, m): asked.append(m.__name__)\n"
+             "sys.meta_path.append(F())\n"
+             "sys.path.insert(0, %r)\n"
+             "from pymemcache.client.murmur3 import murmur3_32\n"
+             "print([murmur3_32(''.join(map(chr,d)),s) for d,s in %r]); print(sorted(set(asked)))" % (REPO, probe))
+    o2 = subprocess.run([sys.executable, "-c", code2], env={"PYTHONHASHSEED": "0", "PATH": "/usr/bin:/bin", "PYTHONDONTWRITEBYTECODE": "1",
+                                                            "PYTHONPYCACHEPREFIX": os.environ.get("PYTHONPYCACHEPREFIX", "/nonexistent-pyc")},
+                        capture_output=True, text=True, timeout=60)
+    ctx.count("fresh-interpreter with every optional module importable")
+    lines2 = o2.stdout.strip().split("\n")
+    if not lines2 or lines2[0] != here:
+        ctx.violation("value differs on a host where an optional third-party module is importable", {"here": here, "there": (lines2[0] if lines2 else "")[:200],
+                                                                                                       "modules_asked_for": lines2[1][:200] if len(lines2) > 1 else o2.stderr[-300:]})
     ctx.assumptions = ["strings shorter than 2^32 code points", "ord() of a str element is its code point"]
     ctx.finish(search)
